@@ -2544,6 +2544,15 @@ impl<'a> Socket<'a> {
             // can't actually do anything.
             self.timer.set_for_idle(cx.now(), self.keep_alive);
 
+            // Unlike after an RTO, a fast retransmit does not rewind `remote_last_seq`. If the
+            // segment cannot be handed to the device now and the data is acknowledged in the
+            // meantime, whatever else is still in flight (our FIN) would be left without any
+            // timer: keep the retransmission timer running behind the fast retransmit.
+            if self.pending_fast_retransmit {
+                let rto = self.rtte.retransmission_timeout();
+                self.timer.set_for_retransmit(cx.now(), rto);
+            }
+
             // If the remote window is closed, nothing can be retransmitted right now, and
             // no segment that would re-arm the retransmit timer is going to be sent below.
             // Fall back to probing the window, or nothing would ever wake this socket up
